@@ -244,10 +244,18 @@ def _gen_bip85(rng):
     app = rng.choice([[128169, rng.choice([16, 32, 64])], [39, 0, rng.choice([12, 18, 24])], [2], [32]])
     index = rng.randrange(0, 2 ** 31)
     if rng.random() < 0.4:
-        # steer to a derived key with leading zero bytes (one path in 256)
-        for index in range(index, index + 3000):
-            k = R.derive(root, [R.HARD + 83696968] + [R.HARD + a for a in app] + [R.HARD + (index % 2 ** 31)])
-            if not isinstance(k, str) and k["key"][1] == 0:
+        # steer to a derived key with a leading zero byte (one index in 256): the parent is derived
+        # once, and each candidate index costs one HMAC (BIP32 private -> private hardened step)
+        import hmac
+        from spec.ec_ref import SECP256K1 as C
+        parent = R.derive(root, [R.HARD + 83696968] + [R.HARD + a for a in app])
+        kpar = int.from_bytes(parent["key"][1:], "big")
+        for index in range(index, index + 4000):
+            i = R.HARD + (index % 2 ** 31)
+            I = hmac.new(parent["chain"], parent["key"] + i.to_bytes(4, "big"), "sha512").digest()
+            il = int.from_bytes(I[:32], "big")
+            child = (il + kpar) % C.n
+            if il < C.n and child and child < 2 ** 248:
                 break
     index %= 2 ** 31
     return dict(seed=seed, app=app, index=index)
